@@ -472,7 +472,7 @@ func c20Child(c *Ctx) {
 				time.Sleep(time.Second)
 				if p := c20Fl.progress.Load(); p != last {
 					last, since = p, time.Now()
-				} else if time.Since(since) > 90*time.Second {
+				} else if time.Since(since) > 60*time.Second {
 					buf := make([]byte, 1<<20)
 					n := runtime.Stack(buf, true)
 					fmt.Fprintf(os.Stderr, "no operation completed for %v\n%s\n", time.Since(since), buf[:n])
@@ -507,6 +507,20 @@ func c20Child(c *Ctx) {
 	os.WriteFile(os.Getenv("C20_OBS"), b, 0o644)
 }
 
+// c20Enough: a failing schedule has already been found in this child (a difference, or the race
+// detector has written a report): further rounds only cost time — a race-heavy mutant otherwise
+// spends minutes printing reports.
+func c20Enough(obs *c20Obs) bool {
+	obs.mu.Lock()
+	n := len(obs.Fails)
+	obs.mu.Unlock()
+	if n > 0 {
+		return true
+	}
+	logs, _ := filepath.Glob(filepath.Join(os.Getenv("C20_TMP"), "race.*"))
+	return len(logs) > 0
+}
+
 // c20Together runs g goroutines, each executing its own list of operations, released together.
 func c20Together(g int, body func(id int)) {
 	var wg sync.WaitGroup
@@ -528,7 +542,7 @@ func c20Together(g int, body func(id int)) {
 
 func c20MixProfile(cs *c20Case, obs *c20Obs) {
 	r := NewRng(cs.Seed)
-	for round := 0; round < cs.Rounds; round++ {
+	for round := 0; round < cs.Rounds && !c20Enough(obs); round++ {
 		p := GenProfile(r, &GenOpts{MaxSampleTypes: 3, MaxFuncs: 12, MaxLocs: 20, MaxSamples: 30, MaxDepth: 8, Labels: true, Header: true, WeirdStrings: round%2 == 1, SparseIDs: round%3 == 2})
 		before := Canon(p)
 		// alone
